@@ -51,6 +51,9 @@ def secret_pool(seed):
         ("j9Hex", refs.j9_encode("BEEF77", "i"), "BEEF77"), ("clearHex", "BEEF77", "BEEF77"),
         # $9$-looking strings that do not decrypt: plain text secrets by identity
         ("j9Bad1", "$9$ab", "$9$ab"), ("j9Bad2", "$9$abc!defghij", "$9$abc!defghij"),
+        # a well-formed string and the same string with its last character lost (incomplete last group)
+        ("j9Full", refs.j9_encode("hunter0", "k", "abc"), "hunter0"),
+        ("j9Trunc", refs.j9_encode("hunter0", "k", "abc")[:-1], refs.j9_encode("hunter0", "k", "abc")[:-1]),
     ]
 
 
@@ -81,7 +84,7 @@ def alphabet(seed, tier):
 
     for lab in ("textA", "textB", "hexA", "t7A", "md5A", "j9P.Q", "clearP", "textLong"):
         add(0, [lab], 0)
-    for lab in ("textA", "hexB", "md5B", "j9P.k", "j9Q", "j9Long", "j9Num", "j9Hex", "j9Bad1", "j9Bad2"):
+    for lab in ("textA", "hexB", "md5B", "j9P.k", "j9Q", "j9Long", "j9Num", "j9Hex", "j9Bad1", "j9Bad2", "j9Full", "j9Trunc"):
         add(1, [lab], 1)
     for lab in ("textA", "j9P.Q", "clearP", "md5A"):
         add(1, [lab], 2)
